@@ -312,14 +312,16 @@ def main(tier, replay=None, rep=None, prop=PROP, cases=None):
     if not collect and not replay:
         import tacticdrv
 
-        n_disp, _ = tacticdrv.conformance(rep, rd, PROP, cases[: 80 if tier == "quick" else 800])
+        from vcommon import drift_tier
+
+        n_disp, _ = drift_tier(PROP, "dispatcher", lambda: tacticdrv.conformance(rep, rd, PROP, cases[: 80 if tier == "quick" else 800]))
         import t4drv
 
-        n_t4, _ = t4drv.conformance(rep, rd, PROP, tier, [c for c in cases if "S" in c][: 120 if tier == "quick" else 1500], seed())
+        n_t4, _ = drift_tier(PROP, "tactic-4", lambda: t4drv.conformance(rep, rd, PROP, tier, [c for c in cases if "S" in c][: 120 if tier == "quick" else 1500], seed()))
         n_disp += n_t4
         import t2drv
 
-        n_t2, _ = t2drv.conformance(rep, rd, PROP, tier, seed())
+        n_t2, _ = drift_tier(PROP, "tactic-2", lambda: t2drv.conformance(rep, rd, PROP, tier, seed()))
         n_disp += n_t2
     shutil.rmtree(rd, ignore_errors=True)
     if collect:
